@@ -12,7 +12,7 @@
      neo-go's own wrappers, with the checksum function (first 4 bytes of double SHA-256) as a
      Section variable.
    addr_decode models the CORRECT behaviour: the payload must be exactly 21 bytes (prefix + 20).
-   The unchanged Go code slices b[1:21] without checking len(b) (known defect F14); the defect is
+   The unchanged Go code slices b[1:21] without checking len(b) (known defect F15); the defect is
    not modelled.
 
    Strings are lists of ASCII codes (Z), bytes are Z in [0,256). *)
@@ -78,7 +78,7 @@ Definition check_decode (s : list Z) : option (list Z) :=
 (* address.Uint160ToString with Prefix = prefix; u = u.BytesBE() *)
 Definition addr_encode (prefix : Z) (u : list Z) : list Z := check_encode (prefix :: u).
 
-(* address.StringToUint160, with the length check the Go code lacks (F14) *)
+(* address.StringToUint160, with the length check the Go code lacks (F15) *)
 Definition addr_decode (prefix : Z) (s : list Z) : option (list Z) :=
   match check_decode s with
   | None => None
